@@ -1,4 +1,4 @@
-package drivers
+package c03
 
 // C03 — precisebank.  Histories of SendCoins / SendCoinsFromModuleToAccount /
 // SendCoinsFromAccountToModule / MintCoins / BurnCoins on the real keeper over
@@ -6,9 +6,12 @@ package drivers
 // and Coq case files for Model/Precisebank.v.
 
 import (
+	. "kavaverif/lib"
+
 	"encoding/json"
 	"fmt"
 	"math/big"
+	"os"
 	"strings"
 
 	sdkmath "cosmossdk.io/math"
@@ -601,7 +604,7 @@ func runC03(o Opts) (*Result, error) {
 	cnt := NewCounters()
 
 	if o.Replay != "" {
-		bz, err := readFile(o.Replay)
+		bz, err := os.ReadFile(o.Replay)
 		if err != nil {
 			return nil, err
 		}
